@@ -113,6 +113,8 @@ impl Future for StatusFuture {
     if self.0.is_closed() {
       Poll::Ready(NormalReturn::new(()))
     } else {
+      #[cfg(rxrust_verif)]
+      crate::scheduler::verif_hook::yield_point("status:checked");
       self.0.waker.register(cx.waker());
       Poll::Pending
     }
